@@ -624,6 +624,9 @@ func (h *harness) ckptCases() {
 
 // ---- everything ----------------------------------------------------------------------------------------------------------
 
+// p: always in the thorough tier, with probability x in the quick tier
+func (h *harness) p(x float64) bool { return h.thor || h.r.Float64() < x }
+
 func (h *harness) runAll(big int) {
 	A := h.A
 	for _, th := range A.heads {
@@ -655,7 +658,9 @@ func (h *harness) runAll(big int) {
 		}
 		for _, s := range starts(n) {
 			for _, all := range []bool{false, true} {
-				h.runEntries(th, s%2 == 0, all, s, "honest", nil)
+				if h.thor || n < 255 || h.p(0.3) {
+					h.runEntries(th, s%2 == 0, all, s, "honest", nil)
+				}
 			}
 		}
 		for _, i := range []int64{-1, 0, 1, 254, 255, 256, 257, n - 1, n, n + 1, int64(h.r.Intn(int(n)))} {
@@ -676,23 +681,34 @@ func (h *harness) runAll(big int) {
 
 		// data tile tampering
 		for _, t := range dataTilesOf(n) {
-			for _, tc := range h.dataTamperings(th, t[0], int(t[1])) {
+			tcs := h.dataTamperings(th, t[0], int(t[1]))
+			for _, tc := range tcs {
+				// quick tier: every class on the cheap tiles (1, 88, 255 leaves), a sample on each full tile
+				if !h.thor && t[1] == 256 && h.r.Intn(100) >= 35 {
+					continue
+				}
 				h.stats["tamper_class_"+strings.SplitN(tc.label, ":", 2)[0]]++
-				h.runEntries(th, false, true, 0, tc.label, tc.ovr)
-				s := t[0]*256 + int64(h.r.Intn(int(t[1])))
-				h.runEntries(th, h.r.Intn(4) == 0, h.r.Intn(2) == 0, s, tc.label, tc.ovr)
+				s0 := int64(0)
+				if !h.thor && h.r.Intn(4) != 0 {
+					s0 = t[0] * 256 // quick tier: mostly skip the tiles before the tampered one
+				}
+				h.runEntries(th, false, true, s0, tc.label, tc.ovr)
+				if h.p(0.34) {
+					s := t[0]*256 + int64(h.r.Intn(int(t[1])))
+					h.runEntries(th, h.r.Intn(4) == 0, h.r.Intn(2) == 0, s, tc.label, tc.ovr)
+				}
 				idx := tc.leaf
 				if idx < 0 {
 					idx = t[0]*256 + int64(h.r.Intn(int(t[1])))
 				}
 				h.runEntry(th, strings.HasPrefix(tc.label, "archival"), idx, tc.label, tc.ovr)
-				if idx > t[0]*256 {
+				if idx > t[0]*256 && h.p(0.34) {
 					h.runEntry(th, false, idx-1, tc.label, tc.ovr)
 				}
-				if idx+1 < n && h.r.Intn(2) == 0 {
+				if idx+1 < n && h.p(0.25) {
 					h.runEntry(th, false, idx+1, tc.label, tc.ovr)
 				}
-				if strings.HasPrefix(tc.label, "unc-") || strings.HasPrefix(tc.label, "cov-") || h.r.Intn(4) == 0 {
+				if ((strings.HasPrefix(tc.label, "unc-") || strings.HasPrefix(tc.label, "cov-")) && h.p(0.6)) || h.p(0.15) {
 					sc := h.sctCases(th, idx)[0]
 					sc.label, sc.ovr = "sct-authentic+"+tc.label, tc.ovr
 					h.runIncl(th, false, sc)
@@ -712,16 +728,25 @@ func (h *harness) runAll(big int) {
 		lastTile := dataTilesOf(n)[len(dataTilesOf(n))-1]
 		for _, tc := range append(h.hashTamperings(th, fetched), h.consistentForgery(th)...) {
 			h.stats["tamper_class_"+strings.SplitN(strings.SplitN(tc.label, "@", 2)[0], ":", 2)[0]]++
-			h.runEntries(th, false, true, 0, tc.label, tc.ovr)
-			h.runEntries(th, false, false, lastTile[0]*256, tc.label, tc.ovr)
+			forgery := strings.HasPrefix(tc.label, "consistent")
+			s0 := int64(0)
+			if !h.thor && !forgery && n > 256 {
+				s0 = 256 * int64(h.r.Intn(int(lastTile[0])+1)) // quick tier: start at a random tile
+			}
+			h.runEntries(th, false, h.r.Intn(2) == 0, s0, tc.label, tc.ovr)
+			if forgery || h.p(0.3) {
+				h.runEntries(th, false, false, lastTile[0]*256, tc.label, tc.ovr)
+			}
 			idx := tc.leaf
 			if idx < 0 {
 				idx = int64(h.r.Intn(int(n)))
 			}
-			h.runEntry(th, false, idx, tc.label, tc.ovr)
+			if forgery || h.p(0.6) {
+				h.runEntry(th, false, idx, tc.label, tc.ovr)
+			}
 			h.monHashReader(th, 0, n, tc.label, tc.ovr)
 			h.monHashReader(th, lastTile[0]*256, n, tc.label, tc.ovr)
-			if h.r.Intn(3) == 0 {
+			if forgery || h.p(0.25) {
 				sc := h.sctCases(th, idx)[0]
 				sc.label, sc.ovr = "sct-authentic+"+tc.label, tc.ovr
 				h.runIncl(th, false, sc)
@@ -732,6 +757,11 @@ func (h *harness) runAll(big int) {
 		idxs := []int64{0, n - 1, int64(h.r.Intn(int(n)))}
 		if n == 1 {
 			idxs = idxs[:1]
+		} else if !h.thor {
+			idxs = idxs[1:]
+			if n != 600 {
+				idxs = idxs[1:]
+			}
 		}
 		for _, idx := range idxs {
 			for _, sc := range h.sctCases(th, idx) {
